@@ -32,9 +32,10 @@ From Coq Require Import List Arith Bool PeanoNat ZArith Reals.
 From Coquelicot Require Import Coquelicot.
 Require Import Num C23_Model C23_Proofs C23_Arith C23_Extreme C23_Delay.
 Import ListNotations.
-Local Open Scope R_scope.
 
 (* ---------------- from C23_Proofs.v *)
+Local Open Scope R_scope.
+
 Theorem C23_sinusoid_derivs a w p k t : (k < 3)%nat ->
   is_derive (sin_d ROps a w p k) t (sin_d ROps a w p (S k) t).
 Proof. exact (sinusoid_derivs a w p k t). Qed.
@@ -77,6 +78,8 @@ Proof. exact (integrate_zdot_is_integrand src t m). Qed.
 Print Assumptions C23_integrate_zdot_is_integrand.
 
 (* ---------------- from C23_Arith.v *)
+Local Close Scope R_scope.
+
 Theorem C23_tget_correct (E : Env) m : dep m <= e_stage E -> J E m -> fst (tget ROps E m) = den E m /\ J E (snd (tget ROps E m)).
 Proof. exact (tget_correct E m). Qed.
 Print Assumptions C23_tget_correct.
@@ -97,7 +100,7 @@ Print Assumptions C23_run_obs_nth.
 
 Theorem C23_Inv_init t vars trees machs :
   (forall i g, var_stage (env0 t vars) i = Some g -> 1 <= g) ->
-  Forall (fun m => erase m = m) trees -> Forall (wf_vars (env0 t vars)) trees ->
+  List.Forall (fun m => erase m = m) trees -> List.Forall (wf_vars (env0 t vars)) trees ->
   Inv (mkSt (env0 t vars) trees machs).
 Proof. exact (Inv_init t vars trees machs). Qed.
 Print Assumptions C23_Inv_init.
@@ -112,7 +115,7 @@ Proof. exact (@arith_eval_correct_example). Qed.
 Print Assumptions C23_arith_eval_correct_example.
 
 Theorem C23_arith_eval_refuted_variable : exists (s : St) (ops : list Op),
-  env_wf (s_env s) /\ vars_pos (s_env s) /\ Forall (J (s_env s)) (s_trees s) /\ ws_run s ops /\ ~ obs_run s ops.
+  env_wf (s_env s) /\ vars_pos (s_env s) /\ List.Forall (J (s_env s)) (s_trees s) /\ ws_run s ops /\ ~ obs_run s ops.
 Proof. exact (@arith_eval_refuted_variable). Qed.
 Print Assumptions C23_arith_eval_refuted_variable.
 
@@ -144,7 +147,7 @@ Proof. exact (step_XS s j o src init G op). Qed.
 Print Assumptions C23_step_XS.
 
 Theorem C23_extreme_is_fold (s : St) j o src init G (ops : list Op) :
-  XS s j o src init G -> Forall (x_allowed j) ops -> x_run_ok s j o src init G ops.
+  XS s j o src init G -> List.Forall (x_allowed j) ops -> x_run_ok s j o src init G ops.
 Proof. exact (extreme_is_fold s j o src init G ops). Qed.
 Print Assumptions C23_extreme_is_fold.
 
@@ -159,6 +162,8 @@ Theorem C23_XI_x_set (E : Env) x init G v : env_wf E -> XI E x init G ->
   XI (inval E 7) (x_set (inval E 7) x v) v [].
 Proof. exact (XI_x_set E x init G v). Qed.
 Print Assumptions C23_XI_x_set.
+
+Local Open Scope R_scope.
 
 Theorem C23_fold_is_extreme o l : forall init, In (sfold o init l) (init :: l) /\ forall s, In s (init :: l) -> key o (sfold o init l) <= key o s.
 Proof. exact (fold_is_extreme o l). Qed.
@@ -176,7 +181,7 @@ Print Assumptions C23_vfold_nth.
 Theorem C23_extreme_is_fold_example :
   let s := mkSt (env0 1 []) [] [MX (mk_ext Maximum [PTime] [0])] in
   let ops := [Realize 8; AutoUpd; SetTime (1/2); Realize 8; GetM 0] in
-  XS s 0%nat Maximum [PTime] [0] [] /\ Forall (x_allowed 0) ops /\
+  XS s 0%nat Maximum [PTime] [0] [] /\ List.Forall (x_allowed 0) ops /\
   nth_error (snd (run ROps s ops)) 4 = Some (OVal [1]).
 Proof. exact (@extreme_is_fold_example). Qed.
 Print Assumptions C23_extreme_is_fold_example.
@@ -234,7 +239,7 @@ Proof. exact (step_DS s j src delay bv op). Qed.
 Print Assumptions C23_step_DS.
 
 Theorem C23_delay_is_calc_on_buffer (s : St) j src delay bv (ops : list Op) :
-  DS s j src delay bv -> Forall (fun o => o <> Init) ops -> d_run_ok s j delay bv ops.
+  DS s j src delay bv -> List.Forall (fun o => o <> Init) ops -> d_run_ok s j delay bv ops.
 Proof. exact (delay_is_calc_on_buffer s j src delay bv ops). Qed.
 Print Assumptions C23_delay_is_calc_on_buffer.
 
@@ -250,7 +255,7 @@ Print Assumptions C23_DI_d_init.
 Theorem C23_delay_is_calc_on_buffer_example :
   let s := mkSt (env0 0 []) [] [MD (mk_delay [PTime] (1/2))] in
   let ops := [Realize 8; AutoUpd; SetTime 1; Realize 8; AutoUpd; SetTime 2; Realize 8; GetM 0] in
-  DS s 0%nat [PTime] (1/2) [] /\ Forall (fun o : Op => o <> Init) ops /\
+  DS s 0%nat [PTime] (1/2) [] /\ List.Forall (fun o : Op => o <> Init) ops /\
   exists v, nth_error (snd (run ROps s ops)) 7 = Some (OVal [v]) /\ v = 3/2.
 Proof. exact (@delay_is_calc_on_buffer_example). Qed.
 Print Assumptions C23_delay_is_calc_on_buffer_example.
